@@ -39,9 +39,16 @@ Definition opcode (e : qop) : nat :=
   | Dense _ => 0 | Diag _ _ => 1 | Ident _ => 2 | Scal _ _ => 3 | Sum _ => 4 | Prod _ => 5 | Kron _ => 6 | BDiag _ => 7
   | Transp _ => 8 | Adj _ => 9 | Gen _ => 10 | Perm _ _ => 11 | Tridiag _ _ _ _ => 12 | House _ _ _ => 13 | Sparse _ _ _ => 14
   | KronSum _ => 15 | Sliced _ _ _ => 16 | ConcatV _ => 17 end%nat.
+Fixpoint otype (e : qop) : rty :=
+  match e with
+  | Prod ms => TProd (map otype ms)
+  | Kron ms => TKron (map otype ms)
+  | BDiag ms => TBDiag (map (fun mc => otype (fst mc)) ms)
+  | _ => TOp (opcode e)
+  end.
 Fixpoint rtype (r : iop (R:=qi)) : rty :=
   match r with
-  | IOp e => TOp (opcode e)
+  | IOp e => otype e
   | ITri _ _ _ => TTriInv
   | IIter ICG _ => TIterCG | IIter IGMRES _ => TIterGMRES
   | IProd ms => TProd (map rtype ms)
